@@ -598,6 +598,19 @@ impl VariableType {
     }
 }
 
+/// Spells a domain bound the way the grammar reads it back: the infinities are
+/// the constants `Infinity` / `MinusInfinity` on either side (Rust would print
+/// `inf` / `-inf`, which re-parses as an undeclared variable).
+fn domain_bound_to_string(bound: f64) -> String {
+    if bound == f64::INFINITY {
+        "Infinity".to_string()
+    } else if bound == f64::NEG_INFINITY {
+        "MinusInfinity".to_string()
+    } else {
+        bound.to_string()
+    }
+}
+
 impl fmt::Display for VariableType {
     fn fmt(&self, f: &mut fmt::Formatter<'_>) -> fmt::Result {
         let s = match self {
@@ -606,28 +619,16 @@ impl fmt::Display for VariableType {
                 (0.0, f64::INFINITY) => "NonNegativeReal".to_string(),
                 _ => format!(
                     "NonNegativeReal({}, {})",
-                    min,
-                    if *max == f64::INFINITY {
-                        "Infinity".to_string()
-                    } else {
-                        max.to_string()
-                    }
+                    domain_bound_to_string(*min),
+                    domain_bound_to_string(*max)
                 ),
             },
             VariableType::Real(min, max) => match (*min, *max) {
                 (f64::NEG_INFINITY, f64::INFINITY) => "Real".to_string(),
                 _ => format!(
                     "Real({}, {})",
-                    if *min == f64::NEG_INFINITY {
-                        "MinusInfinity".to_string()
-                    } else {
-                        min.to_string()
-                    },
-                    if *max == f64::INFINITY {
-                        "Infinity".to_string()
-                    } else {
-                        max.to_string()
-                    }
+                    domain_bound_to_string(*min),
+                    domain_bound_to_string(*max)
                 ),
             },
             VariableType::IntegerRange(min, max) => format!("IntegerRange({}, {})", min, max),
